@@ -13,6 +13,9 @@ TRUSTED = [
     "file's bytes compared with the model, this run)",
     "extractor translate/extract_escapes.py (replace list of encodeXmlText, forbidden set of encodeFileName, literal pieces of "
     "createFileName) regenerating Gen/EscapeTables.lean; its output is also exercised by the correspondence",
+    "extractor translate/extract_failure_ctors.py (member-initialiser lists of the three TestFailure constructors, copy constructor, "
+    "getters, FailFailure) regenerating Gen/FailureCtors.lean; exercised by the correspondence through failures built by every "
+    "constructor, from the test body and from a plugin's post-test action",
     "SimpleString::replace(const char*, const char*) / replace(char, char) equal Text.replaceAll / Text.replaceByte (property C13)",
     "the XML rules as written down in Spec/JUnit.lean (references, what may appear raw in attribute values and text); "
     "Python's xml.parsers.expat as the standards-conforming judge of the files the real code wrote",
@@ -28,7 +31,7 @@ ASSUMPTIONS = [
     "default order: the tests of a group are consecutive; a group whose tests are all filtered out produces cpputest_.xml with an empty "
     "suite (observation, outside the quantifier); captured output accumulates over the groups of a run (stdOutput_ is never reset)",
 ]
-RULE = ("scripted registries: 1-5 groups, pass / fail (several failures per test, continuing and terminating) / ignored tests, printed "
+RULE = ("scripted registries: 1-5 groups, pass / fail through every TestFailure constructor (file+line+message, message only, file+line only, FailFailure; several per test; from the body and from a plugin's post-test action) / ignored tests, printed "
         "text, optional package and name filter; names, paths, messages and printed text over printable ASCII with & < > \" ' CR LF "
         "frequent and some longer than 100 bytes; non-trivial = a file contains an encoded character, a failure or a skipped element; "
         "distinct = distinct op sequences")
@@ -61,8 +64,8 @@ def generate(rng, tier):
 
 
 def translate(ctx):
-    from translate import extract_escapes
-    return extract_escapes.run()
+    from translate import extract_escapes, extract_failure_ctors
+    return (extract_escapes.run() or []) + (extract_failure_ctors.run() or [])
 
 
 def _files(lines):
@@ -92,8 +95,15 @@ def observe(r, rep):
         rep.count("branch.package")
     if reg["filter"] is not None and any(not G.should_run(reg, t) for t in reg["tests"]):
         rep.count("branch.test_filtered_out")
-    if any(sum(1 for a in G.executed(t) if a[0] in ("fail", "failx")) >= 2 for t in reg["tests"]):
+    if any(len(G.failures(t)) >= 2 for t in reg["tests"]):
         rep.count("branch.several_failures_in_one_test")
+    for t in reg["tests"]:
+        if not G.should_run(reg, t) or t["ignored"]:
+            continue
+        for a in G.executed(t) + [x for x in t["acts"] if x[0] == "postfail"]:
+            if a[0] in ("fail", "failx", "failmsg", "failloc", "postfail"):
+                rep.count("ctor." + {"fail": "file_line_message", "failx": "FailFailure", "failmsg": "message_only",
+                                     "failloc": "file_line_only", "postfail": "message_only_from_plugin"}[a[0]])
     names = [n for n, _ in fs]
     if len(set(names)) != len(names):
         rep.count("observation.two_groups_same_file_name")
@@ -144,10 +154,9 @@ def printed_by(t):
 
 
 def first_failure(t):
-    for a in G.executed(t):
-        if a[0] in ("fail", "failx"):
-            return a
-    return None
+    """(kind, file, line, message) of the first failure, or None"""
+    fs = G.failures(t)
+    return ("first",) + fs[0] if fs else None
 
 
 def expat_judge(ops, files):
